@@ -90,6 +90,88 @@ def c03SamplePanics (dist : String) (ps : List String) : Bool :=
 def c03Fail (dist : String) (ps : List String) : String :=
   if c03SamplePanics dist ps then panicked else diverged
 
+/-! ### summaries of long streams (`q`, `qmvn`): the same reply as `summary` / `qmvn` in exec/src/bin/c03.rs -/
+
+/-- key of `f64::total_cmp`: the order of the keys as unsigned integers is the total order of the floats -/
+@[inline] def c03Key (x : Float) : UInt64 :=
+  let b := x.toBits
+  if b >>> 63 == 1 then ~~~b else b ||| 0x8000000000000000
+
+@[inline] def c03Swap (a : FloatArray) (i j : Nat) : FloatArray :=
+  let x := a.get! i
+  let y := a.get! j
+  (a.set! i y).set! j x
+
+/-- three-way partition of `a[i, gt)` around the key `p`; `a[lo, lt)` are below, `a[lt, i)` equal, `a[gt, hi)` above -/
+partial def c03Part (p : UInt64) (a : FloatArray) (lt i gt : Nat) : FloatArray × Nat × Nat :=
+  if i < gt then
+    let k := c03Key (a.get! i)
+    if k < p then c03Part p (c03Swap a lt i) (lt + 1) (i + 1) gt
+    else if p < k then c03Part p (c03Swap a i (gt - 1)) lt i (gt - 1)
+    else c03Part p a lt (i + 1) gt
+  else (a, lt, gt)
+
+/-- sort `a[lo, hi)` by `total_cmp` (three-way quicksort: many equal values are the normal case for discrete laws) -/
+partial def c03Sort (a : FloatArray) (lo hi : Nat) : FloatArray :=
+  if hi ≤ lo + 1 then a
+  else
+    let p := c03Key (a.get! ((lo + hi) / 2))
+    let (a, lt, gt) := c03Part p a lo lo hi
+    c03Sort (c03Sort a lo lt) gt hi
+
+/-- `n` draws into an unboxed array; `none` = a draw ran out of fuel -/
+def c03DrawArr (f : C03Sampler) : Nat → FloatArray → Rng → Option (FloatArray × Rng)
+  | 0, acc, g => some (acc, g)
+  | n + 1, acc, g =>
+    match f g with
+    | none => none
+    | some (x, g) => c03DrawArr f n (acc.push x) g
+
+/-- 0-based indices of the recorded order statistics: `j (n-1) / (k-1)`, `j < k` -/
+def c03Ranks (n k : Nat) : List Nat :=
+  if n = 0 then [] else if k < 2 then [0] else (List.range k).map fun j => j * (n - 1) / (k - 1)
+
+/-- NaNs removed (count returned), rest sorted -/
+def c03Sorted (v : FloatArray) : Nat × FloatArray :=
+  let w := v.foldl (fun (acc : FloatArray) x => if x.isNaN then acc else acc.push x) (FloatArray.emptyWithCapacity v.size)
+  (v.size - w.size, c03Sort w 0 w.size)
+
+def c03OrderStats (v : FloatArray) (k : Nat) : List Float := (c03Ranks v.size k).map fun i => v.get! i
+
+/-- runs of equal values of a sorted array, first representative and length; stops once more than 4097 runs exist -/
+partial def c03Runs (v : FloatArray) (i : Nat) (acc : Array (Float × Nat)) : Array (Float × Nat) :=
+  if i < v.size then
+    let x := v.get! i
+    if acc.size > 0 && (acc[acc.size - 1]!).1 == x then
+      c03Runs v (i + 1) (acc.modify (acc.size - 1) fun (y, c) => (y, c + 1))
+    else if acc.size > 4096 then acc
+    else c03Runs v (i + 1) (acc.push (x, 1))
+  else acc
+
+def c03Summary (draws : FloatArray) (k : Nat) : String :=
+  let len := draws.size
+  let nonint := draws.foldl (fun (c : Nat) x => if !x.isNaN && (x.isInf || x.floor != x) then c + 1 else c) 0
+  let (nan, v) := c03Sorted draws
+  let nanF : Float := 0.0 / 0.0
+  let mn := if v.size = 0 then nanF else v.get! 0
+  let mx := if v.size = 0 then nanF else v.get! (v.size - 1)
+  let runs := c03Runs v 0 #[]
+  let body :=
+    if runs.size ≤ 4096 then
+      runs.foldl (fun (s : String) (x, c) => s ++ " " ++ showFloat x ++ " " ++ toString c) ("h " ++ toString runs.size)
+    else
+      let os := c03OrderStats v k
+      if os.isEmpty then "o 0" else "o " ++ toString os.length ++ " " ++ showFloats os
+  toString len ++ " " ++ toString nan ++ " " ++ toString nonint ++ " " ++ showFloat mn ++ " " ++ showFloat mx ++ " " ++ body
+
+/-- rows of `MVN::sample_n` appended to an unboxed array -/
+def c03MvnRows (d : MVN.Dist Float) : Nat → FloatArray → Rng → Option (FloatArray × Rng)
+  | 0, acc, g => some (acc, g)
+  | n + 1, acc, g =>
+    match MVN.sample c03Fuel d g with
+    | none => none
+    | some (x, g) => c03MvnRows d n (x.foldl (fun a y => a.push y) acc) g
+
 def c03Step (args : List String) : String :=
   match args with
   | "s" :: dist :: seed :: n :: ps =>
@@ -120,6 +202,42 @@ def c03Step (args : List String) : String :=
           | some m => ok (toString m.nrows ++ " " ++ toString m.ncols ++ " "
               ++ (if xs.isEmpty then "" else showFloats m.data ++ " ") ++ toString g.s.toNat)
     | _, _, _ => badOp
+  | "q" :: dist :: seed :: n :: k :: ps =>
+    match seed.toNat?, n.toNat?, k.toNat? with
+    | some seed, some n, some k =>
+      match c03Ctor dist ps with
+      | .bad => badOp
+      | .panic => panicked
+      | .ok f =>
+        match c03DrawArr f n (FloatArray.emptyWithCapacity n) (Rng.ofSeed (UInt64.ofNat seed)) with
+        | none => c03Fail dist ps
+        | some (xs, g) => ok (c03Summary xs k ++ " " ++ toString g.s.toNat)
+    | _, _, _ => badOp
+  | "qmvn" :: rest =>
+    withArgs (do let s ← pU64; let n ← pNat; let d ← pNat; let mean ← pMany pFloat d; let cov ← pMany pFloat (d * d)
+                 let m ← pNat
+                 let fs ← pMany (do let w ← pMany pFloat d; let c ← pFloat; pure (w, c)) m
+                 let k ← pNat; pure (s, n, d, mean, cov, fs, k)) rest
+      fun (s, n, d, mean, cov, fs, k) =>
+      match LA.M.new cov d d with
+      | none => panicked
+      | some covm =>
+        match MVN.new mean covm with
+        | none => panicked
+        | some dist =>
+          match c03MvnRows dist n (FloatArray.emptyWithCapacity (n * d)) (Rng.ofSeed s) with
+          | none => panicked
+          | some (data, g) =>
+            let nan := data.foldl (fun (c : Nat) x => if x.isNaN then c + 1 else c) 0
+            let head := toString n ++ " " ++ toString d ++ " " ++ toString nan ++ " " ++ toString fs.length ++ " " ++ toString k
+            let body := fs.foldl (fun (acc : String) (w, c) =>
+              let wa := FloatArray.mk w.toArray
+              let vals := (List.range n).foldl (fun (v : FloatArray) i =>
+                v.push ((List.range d).foldl (fun (a : Float) j => a + wa.get! j * data.get! (i * d + j)) c))
+                (FloatArray.emptyWithCapacity n)
+              let (_, sv) := c03Sorted vals
+              acc ++ " " ++ showFloats (c03OrderStats sv k)) head
+            ok (body ++ " " ++ toString g.s.toNat)
   | "mvn" :: rest =>
     withArgs (do let s ← pU64; let n ← pNat; let d ← pNat; let mean ← pMany pFloat d
                  let cr ← pNat; let cc ← pNat; let cov ← pMany pFloat (cr * cc); pure (s, n, mean, cr, cc, cov)) rest
@@ -136,4 +254,21 @@ def c03Step (args : List String) : String :=
               ++ (if m.data.isEmpty then "" else showFloats m.data ++ " ") ++ toString g.s.toNat)
   | _ => badOp
 
-def main (args : List String) : IO UInt32 := mainWith () (fun _ t => ((), c03Step t)) args
+/-- One request line -> one reply line (as `Cv.runFile`, stateless). -/
+def c03Line (line : String) : String :=
+  let toks := tokens line
+  if toks.isEmpty then "#" else if toks.head!.startsWith "#" then "#" else c03Step toks
+
+/-- The requests are independent (every line carries its seed), so they are evaluated as parallel tasks and the
+replies written in request order. -/
+def main (args : List String) : IO UInt32 := do
+  match args with
+  | [i, o] =>
+    let lines ← IO.FS.lines i
+    let tasks := lines.map fun line => Task.spawn fun _ => c03Line line
+    let h ← IO.FS.Handle.mk o .write
+    for t in tasks do
+      h.putStrLn t.get
+    h.flush
+    pure 0
+  | _ => IO.eprintln "usage: cv_c03 <ops-file> <out-file>"; pure 2
